@@ -107,7 +107,15 @@ func callGFunction(L *LState, tailcall bool) bool {
 	frame := L.currentFrame
 	gfnret := frame.Fn.GFunction(L)
 	if tailcall {
-		L.currentFrame = L.RemoveCallerFrame()
+		if gfnret < 0 {
+			// a yield in tail position (return coroutine.yield(...)): the calling frame stays, and the values of
+			// the next resume arrive like the results of an ordinary call, which the RETURN that follows every
+			// TAILCALL hands on.  Removing the caller here left a coroutine whose body did this without frames.
+			frame.ReturnBase = frame.Base
+			frame.NRet = MultRet
+		} else {
+			L.currentFrame = L.RemoveCallerFrame()
+		}
 	}
 
 	if gfnret < 0 {
